@@ -15,7 +15,7 @@
     requests / in-flight pairs discarded by a flush; [g_ans] answers. *)
 From Coq Require Import Permutation.
 From VLib Require Import Akita ListX.
-From VMem Require Import AddrTrans AddrTransProofs.
+From VMem Require Import AddrTrans AddrTransProofs AddrTransLive.
 Open Scope N_scope.
 
 (** Accounting.  The requests taken by the translator are, as a multiset, exactly:
@@ -200,6 +200,108 @@ Theorem at_progress_respond : forall s x rest a p b,
 Proof. exact respond_progress. Qed.
 Print Assumptions at_progress_respond.
 
+(** At most one open lookup per (page, PID): the (page, PID) keys of the
+    transactions whose reply has not been taken are pairwise distinct, and so are
+    the lookup IDs of all transactions (DESIGN Appendix A.2 (5)). *)
+Theorem at_one_open_lookup : forall c evs,
+  let s := run (init c) evs in
+  NoDup (okeys (txs s)) /\ NoDup (map tid (txs s)).
+Proof.
+  intros c evs s. pose proof (run_inv evs _ (init_inv c)) as H. fold s in H.
+  inv_split H. auto.
+Qed.
+Print Assumptions at_one_open_lookup.
+
+(** Liveness, end to end.  [polite_run]: the environment respects the protocol —
+    requests on Top, responses on Bottom only for bottom requests it has retrieved,
+    translation replies only for lookups it has retrieved, control messages are
+    discards, or restarts delivered while the translator is flushing.  From any
+    state reached that way which is not flushing and has no control message pending,
+    the fair environment [fair_evs] (empty the outgoing ports, answer an unanswered
+    lookup, answer an unanswered memory request, else tick; no new request) needs at
+    most [rank s] actions — [rank] weighs every message by the stages it still has
+    to pass, each action strictly decreases it ([fair_next_lt]) — after which both
+    tables and all data ports are empty, every request that was accepted or waiting
+    in the top port has been accepted, and every accepted request has been answered
+    with the answer retrieved by the requester, unless a flush before [s] discarded it. *)
+Theorem at_every_request_answered : forall c evs oracle,
+  polite_run (init c) evs ->
+  let s := run (init c) evs in
+  flushing s = false -> ctl_in s = [] -> (1 <= width c)%nat ->
+  let tail := fair_evs oracle (rank s) s in
+  let s' := run s tail in
+  (length tail <= rank s)%nat /\ polite_run s tail /\
+  top_in s' = [] /\ txs s' = [] /\ inflight s' = [] /\ top_out s' = [] /\ bot_out s' = [] /\
+  (forall r, In r (accepted (g_seen s) ++ top_in s) -> In r (accepted (g_seen s'))) /\
+  (forall r, In r (accepted (g_seen s')) ->
+     In r (g_disc s) \/ (exists b, In (r, b) (g_idisc s)) \/
+     (exists a, In a (g_ans s') /\ a_top a = r /\ In (a_out a) (g_tretr s'))).
+Proof.
+  intros c evs oracle Hp s Hf Hctl Hw.
+  pose proof (run_inv evs _ (init_inv c)) as H.
+  pose proof (run_live evs _ (init_inv c) (init_live c) Hp) as L. fold s in H, L.
+  apply every_request_answered; auto.
+  pose proof (run_cfg evs (init c)) as Hc. fold s in Hc. cbn in Hc. now rewrite Hc.
+Qed.
+Print Assumptions at_every_request_answered.
+
+(** The ranking function: every action of the fair environment strictly decreases
+    it while it is positive, and no fair action in any order ever increases it. *)
+Theorem at_rank_decreases : forall c evs oracle,
+  polite_run (init c) evs ->
+  let s := run (init c) evs in
+  flushing s = false -> (1 <= width c)%nat -> (0 < rank s)%nat ->
+  (rank (fst (step s (fair_next oracle s))) < rank s)%nat.
+Proof.
+  intros c evs oracle Hp s Hf Hw Hpos.
+  pose proof (run_inv evs _ (init_inv c)) as H.
+  pose proof (run_live evs _ (init_inv c) (init_live c) Hp) as L. fold s in H, L.
+  apply fair_next_lt; auto.
+  pose proof (run_cfg evs (init c)) as Hc. fold s in Hc. cbn in Hc. now rewrite Hc.
+Qed.
+Print Assumptions at_rank_decreases.
+
+Theorem at_rank_never_increases : forall s e,
+  fair_action s e -> (rank (fst (step s e)) <= rank s)%nat.
+Proof. exact rank_monotone. Qed.
+Print Assumptions at_rank_never_increases.
+
+(** The guard "restart only while flushing" is exact.  [polite_weak] allows a
+    restart at any time and is otherwise [polite].  Witness (width 1): answer 1 sits
+    unretrieved in the top port, so the memory response for request 2 waits in the
+    bottom port; a restart without a preceding discard drops it but keeps the
+    in-flight table.  The environment has answered every lookup and every memory
+    request exactly once, the fair drain reaches rank 0, and request 2 is never
+    answered (its in-flight entry stays for ever). *)
+Definition stuck_witness : list ev :=
+  [EDeliverTop (mkMsg 1 KRead 10 P_TOP 1 4100 4 1 [] [] 0); ETick; ERetrTr;
+   EDeliverTr (mkTrsp 2000000 8192); ETick; ERetrBot;
+   EDeliverBot (mkMsg 0 KDataReady P_MEM0 P_BOT 1000000 0 0 0 [1] [] 0); ETick;
+   EDeliverTop (mkMsg 2 KRead 10 P_TOP 2 4104 4 1 [] [] 0); ETick; ERetrTr;
+   EDeliverTr (mkTrsp 2000001 8192); ETick; ERetrBot;
+   EDeliverBot (mkMsg 0 KDataReady P_MEM0 P_BOT 1000001 0 0 0 [2] [] 0);
+   EDeliverCtl (mkMsg 9 KCtrl 20 P_CTL 0 0 0 0 [] [] F_RESTART); ETick; ERetrCtl].
+
+Theorem at_restart_without_discard_refuted :
+  exists c evs oracle,
+    polite_weak_run (init c) evs /\
+    let s := run (init c) evs in
+    flushing s = false /\ ctl_in s = [] /\ (1 <= width c)%nat /\
+    rank (run s (fair_evs oracle (rank s) s)) = 0%nat /\
+    inflight (run s (fair_evs oracle (rank s) s)) <> [] /\
+    ~ drained_and_answered oracle s.
+Proof.
+  exists (mkCfg 12 1%nat 1 1 1), stuck_witness, (fun _ _ => 8192).
+  split.
+  { vm_compute. repeat split; auto. }
+  vm_compute. repeat split; try reflexivity; try discriminate; try lia.
+  intros Hd.
+  specialize (Hd (mkMsg 2 KRead 10 1 2 4104 4 1 [] [] 0) (or_intror (or_introl eq_refl))).
+  destruct Hd as [[]|[(b & [])|(a & [Ha|[]] & Et & _)]].
+  subst a. discriminate.
+Qed.
+Print Assumptions at_restart_without_discard_refuted.
+
 (** Back-pressure: the outgoing buffers never exceed their capacity. *)
 Theorem at_capacity : forall c evs,
   let s := run (init c) evs in
@@ -259,3 +361,16 @@ Proof.
       first [reflexivity | discriminate].
   - repeat constructor; cbn; intuition discriminate.
 Qed.
+
+(** Non-vacuity of the liveness statements: the demo history is polite; cut before
+    the discard it leaves request 1 in flight and request 4 waiting for its lookup;
+    the fair environment then needs 9 actions (rank 11) and all four requests are
+    answered. *)
+Definition demo_live : list ev := firstn (length demo - 2) demo.
+Example demo_drain :
+  polite_run (init cfg0) demo /\
+  let s := run (init cfg0) demo_live in
+  flushing s = false /\ ctl_in s = [] /\ rank s = 11%nat /\
+  length (fair_evs table (rank s) s) = 9%nat /\
+  map m_rspto (g_tretr (run s (fair_evs table (rank s) s))) = [3; 2; 1; 4].
+Proof. vm_compute. repeat split; auto. Qed.
